@@ -62,6 +62,7 @@ package statecache
 
 // Commit hands every pending entry to the block cache (which stores a copy) and empties the map.
 //@ func (*TransactionCache).Commit(tc)
+//@   locals (key, value)
 //@   props C07
 //@   mode wrap
 //@   requires TxnWF(tc) && tc.main is *BlockCache
@@ -120,6 +121,7 @@ package statecache
 //@ spec Truth(H (Array Iface Bool), V (Array Iface Iface), PH (Array Iface Bool), PV (Array Iface Iface), b Iface) Iface = H[b] ? V[b] : (PH[b] ? Truth(H, V, PH, PV, PV[b]) : nilIface())
 
 //@ func (*StateCache).Get(sc, key, blockHash) returns (v, ok)
+//@   locals (blockValues, ok, bvs, vv, ok, v, oldBlockHash, count, prevHash, ok, v)
 //@   props C06 C07
 //@   mode wrap
 //@   requires SCShape(sc)
@@ -147,6 +149,7 @@ package statecache
 // is published only after all keys are written, and the pending map is emptied; a block that is
 // already committed changes nothing.
 //@ func (*StateCache).commit(sc, bc)
+//@   locals (ok, ts, key, v, bvsi, ok, err, bvs)
 //@   props C06 C07
 //@   mode wrap
 //@   requires SCShape(sc) && bc != nil && bc.cache != nil && (forall k string :: k in bc.cache ==> bc.cache[k].deleted || bc.cache[k].data != nil)
